@@ -718,7 +718,9 @@ class TorControlProtocol(LineOnlyReceiver):
 
         self.debuglog.write(line + b'\n')
         self.debuglog.flush()
-        self.fsm.process(line.decode('ascii'))
+        # Tor's replies may carry 8-bit text (e.g. UTF-8 contact lines,
+        # file names); that must not raise out of dataReceived
+        self.fsm.process(line.decode('utf-8', 'replace'))
 
     def connectionMade(self):
         "Protocol API"
